@@ -648,69 +648,10 @@ func c09XmlHasBareAmp(s string) bool {
 	return false
 }
 
-var c09XmlCDataRe = regexp.MustCompile(`(?s)<!\[CDATA\[(.*?)\]\]>`)
-var c09XmlCssM = c09XmlDefaultM()
-
-func c09XmlCssMin(css string, inline bool) string {
-	var w bytes.Buffer
-	var params map[string]string
-	if inline {
-		params = map[string]string{"inline": "1"}
-	}
-	if err := c09XmlCssM.MinifyMimetype([]byte("text/css"), &w, strings.NewReader(css), params); err != nil {
-		return css
-	}
-	return w.String()
-}
-
-// c09XmlKnown: triggers of the open findings about the CSS sub-minifier in SVG, evaluated on a document `doc` that is
-// about to be minified (the input for a first-pass failure, the first output for a second-pass failure):
-// K-C09-Xml-2 — the content of a style element does not contain `]]>` but its CSS-minified form does;
-// K-C09-Xml-3 — the CSS-minified form of the character data of a style element / of a style attribute value (fed
-// with its references to `<` and `&` still escaped, as svg.go does) contains a `&` that does not start a reference.
-func c09XmlKnown(doc []byte) string {
-	for _, m := range c09XmlStyleElemRe.FindAllSubmatch(doc, -1) {
-		content := string(m[1])
-		if strings.Contains(content, "<![CDATA[") {
-			var sb strings.Builder
-			for _, c := range c09XmlCDataRe.FindAllStringSubmatch(content, -1) {
-				sb.WriteString(c[1])
-			}
-			if strings.Contains(c09XmlCssMin(sb.String(), false), "]]>") {
-				return "K-C09-Xml-2"
-			}
-			continue
-		}
-		// the same preprocessing as the TextToken branch of svg.go
-		pre := parse.TrimWhitespace(parse.ReplaceMultipleWhitespaceAndEntities([]byte(content), minxml.EntitiesMap, minxml.TextRevEntitiesMap))
-		css := c09XmlCssMin(string(pre), false)
-		if strings.Contains(css, "]]>") && !strings.Contains(content, "]]>") {
-			return "K-C09-Xml-2"
-		}
-		if c09XmlHasBareAmp(css) {
-			return "K-C09-Xml-3"
-		}
-	}
-	for _, m := range c09XmlStyleAttrRe.FindAllSubmatch(doc, -1) {
-		// the same preprocessing as svg/buffer.go (the lexer has replaced TAB, LF, CR by spaces before)
-		v := bytes.Map(func(r rune) rune {
-			if r == '\t' || r == '\n' || r == '\r' {
-				return ' '
-			}
-			return r
-		}, append([]byte(nil), m[1][1:len(m[1])-1]...))
-		v = parse.TrimWhitespace(parse.ReplaceMultipleWhitespaceAndEntities(v, minxml.EntitiesMap, minxml.AttrRevEntitiesMap))
-		if c09XmlHasBareAmp(c09XmlCssMin(string(v), true)) {
-			return "K-C09-Xml-3"
-		}
-	}
-	return ""
-}
-
-// c09XmlLexerKnown: deviations of the dependency lexer from XML 1.0 on the INPUT that are recorded as known findings:
-// K-C09-Xml-4 the DOCTYPE token of the real lexer is not the DOCTYPE declaration (it ends at the first `>` after a
-// `]` outside a double-quoted literal, or runs on after an unpaired `"`); K-C09-Xml-5 a `>` or `/>` inside PI data is
-// taken for the end of a tag.
+// c09XmlLexerKnown: the deviation of the dependency lexer from XML 1.0 on the INPUT that is recorded as an open known
+// finding: K-C09-Xml-4 the DOCTYPE token of the real lexer is not the DOCTYPE declaration (it ends at the first `>` after
+// a `]` outside a double-quoted literal, or runs on after an unpaired `"`).  (K-C09-Xml-5, `>` inside PI data, is fixed
+// in /repo 59fe76b: such inputs are judged like any other.)
 func c09XmlLexerKnown(real []c06Tok, mine []c09XmlTok) string {
 	var rd, md []string
 	for _, t := range real {
@@ -725,22 +666,6 @@ func c09XmlLexerKnown(real []c06Tok, mine []c09XmlTok) string {
 	}
 	if strings.Join(rd, "\x00") != strings.Join(md, "\x00") {
 		return "K-C09-Xml-4"
-	}
-	inPI := false
-	for _, t := range real {
-		switch t.tt {
-		case pxml.StartTagPIToken:
-			inPI = true
-		case pxml.StartTagClosePIToken:
-			inPI = false
-		case pxml.StartTagCloseToken, pxml.StartTagCloseVoidToken:
-			if inPI {
-				return "K-C09-Xml-5"
-			}
-			inPI = false
-		case pxml.StartTagToken:
-			inPI = false
-		}
 	}
 	return ""
 }
@@ -897,20 +822,7 @@ func c09XmlRun(c *Ctx, st *h.Stage, cases []*c09XmlCase) error {
 			return fmt.Errorf("c09 xml: agree: %s", msg5)
 		}
 		known := func() string {
-			if k := c09XmlLexerKnown(cs.lexIn, inToks); k != "" {
-				return k
-			}
-			if cs.cfg.svg && !strings.Contains(cs.cfg.name, "bare=true") {
-				if k := c09XmlKnown(cs.in); k != "" {
-					return k
-				}
-				if k := c09XmlKnown(cs.out); k != "" && outOK {
-					return k // the first output is fine, the second pass runs into the finding
-				}
-			} else if c09XmlHas(contract, "hazard") {
-				return "K-C09-Xml-1"
-			}
-			return ""
+			return c09XmlLexerKnown(cs.lexIn, inToks)
 		}
 		report := func(what, detail string) {
 			if k := known(); k != "" {
@@ -1001,7 +913,7 @@ func c09XmlRun(c *Ctx, st *h.Stage, cases []*c09XmlCase) error {
 // ---------- tie of the SVG writer model (Model/C09SvgText.lean) to svg.go ----------
 
 func c09XmlSvgModel(c *Ctx, n int) error {
-	st := c.R.StartStage("c09-xml-svgmodel", "model.c09.xml.svgtext / svgcdata / svgattr (Lean model of the TextToken, CDATAToken and attribute-value writers of svg.go with bw.n = 0..3) against svg.Minify on documents `<svg><text>]]<!--c-->DATA</text></svg>`, `…<![CDATA[TXT]]>…`, `<svg><g id=\"BODY\"/></svg>` (no sub-minifier registered); DATA/TXT/BODY over the hazard alphabet; non-trivial = the written bytes differ from the source bytes")
+	st := c.R.StartStage("c09-xml-svgmodel", "model.c09.xml.svgtext / svgcdata / svgattr (Lean model of the TextToken, CDATAToken and attribute-value writers of svg.go with bw.n = 0..3) against svg.Minify on documents `<svg><text>]]<!--c-->DATA</text></svg>`, `…<![CDATA[TXT]]>…`, `<svg><g id=\"BODY\"/></svg>` (no sub-minifier registered), and model.c09.xml.svgstyletext / svgstylecdata / svgstyleattr (the same writers inside `style` / for the `style` attribute, the sub-minifier function instantiated with the real CSS minifier's result on the data the host gives it: isCharData check, `]]>` check, escapeCDEnd after the sub-minifier) against svg.Minify with the CSS minifier registered; DATA/TXT/BODY over the hazard alphabets; non-trivial = the written bytes differ from the source bytes")
 	defer st.End()
 	bare := minify.New()
 	run := func(in string) (string, bool) {
@@ -1013,7 +925,89 @@ func c09XmlSvgModel(c *Ctx, n int) error {
 		return w.String(), true
 	}
 	isWsOnly := func(s string) bool { return strings.Trim(s, " \t\n\r\f") == "" }
+	mCSS := c09XmlDefaultM()
+	runCSS := func(in string) (string, bool) {
+		var w bytes.Buffer
+		var err error
+		if crash := h.Safely(20*time.Second, func() { err = (&minsvg.Minifier{}).Minify(mCSS, &w, strings.NewReader(in), nil) }); crash != "" || err != nil {
+			return "", false
+		}
+		return w.String(), true
+	}
+	cssMin := func(css []byte, inline bool) (string, bool) {
+		var w bytes.Buffer
+		var params map[string]string
+		if inline {
+			params = map[string]string{"inline": "1"}
+		}
+		if err := mCSS.MinifyMimetype([]byte("text/css"), &w, bytes.NewReader(append([]byte(nil), css...)), params); err != nil {
+			return "", false
+		}
+		return w.String(), true
+	}
 	var cases []h.Case
+	// the writers inside `style` / for the `style` attribute: f := the real CSS minifier's answer
+	for k := 0; k < n/2; k++ {
+		r := c.Rng.Fork()
+		switch k % 3 {
+		case 0:
+			data := r.Pick(c09XmlCSS)
+			if r.Chance(50) {
+				data += r.Pick([]string{" ", "", "\n"}) + r.Pick(c09XmlCSS)
+			}
+			if isWsOnly(data) || strings.Contains(data, "]]>") {
+				continue
+			}
+			pre := parse.TrimWhitespace(parse.ReplaceMultipleWhitespaceAndEntities([]byte(data), minxml.EntitiesMap, minxml.TextRevEntitiesMap))
+			m, ok1 := cssMin(pre, false)
+			out, ok := runCSS("<svg><style>" + data + "</style></svg>")
+			if !ok1 || !ok || !strings.HasPrefix(out, "<svg><style>") || !strings.HasSuffix(out, "</style></svg>") {
+				st.Tag("skipped")
+				continue
+			}
+			got := out[len("<svg><style>") : len(out)-len("</style></svg>")]
+			st.Tag("writer=style-text")
+			if m != string(pre) && got == m {
+				st.Tag("style-text=sub-minifier-result-used")
+			} else if m != string(pre) {
+				st.Tag("style-text=result-rejected-or-escaped")
+			}
+			cases = append(cases, h.Case{Line: "model.c09.xml.svgstyletext " + h.Int(0) + " " + h.HexS(data) + " " + h.HexS(m), Key: fmt.Sprintf("style text %q css=%q", data, m), InHex: h.HexS(data), Want: []byte(got), Nontrivial: got != data})
+		case 1:
+			txt := c09XmlCSSForCData(r.Pick(c09XmlCSS))
+			if r.Chance(50) {
+				txt += "a{b:\"" + strings.Repeat("<", 3+r.Intn(4)) + r.Pick([]string{"", "&", "&&"}) + "\"}"
+			}
+			m, ok1 := cssMin([]byte(txt), false)
+			out, ok := runCSS("<svg><style><![CDATA[" + txt + "]]></style></svg>")
+			if !ok1 || !ok || !strings.HasPrefix(out, "<svg><style>") || !strings.HasSuffix(out, "</style></svg>") {
+				st.Tag("skipped")
+				continue
+			}
+			got := out[len("<svg><style>") : len(out)-len("</style></svg>")]
+			st.Tag("writer=style-cdata")
+			if strings.Contains(m, "]]>") {
+				st.Tag("style-cdata=result-with-cdend-rejected")
+			}
+			cases = append(cases, h.Case{Line: "model.c09.xml.svgstylecdata " + h.Int(0) + " " + h.HexS("<![CDATA["+txt+"]]>") + " " + h.HexS(txt) + " " + h.HexS(m), Key: fmt.Sprintf("style cdata %q css=%q", txt, m), InHex: h.HexS(txt), Want: []byte(got), Nontrivial: got != "<![CDATA["+txt+"]]>"})
+		default:
+			d := r.Pick(c09XmlStyleDecl)
+			if r.Chance(50) {
+				d += ";" + r.Pick(c09XmlStyleDecl)
+			}
+			d = strings.ReplaceAll(d, "\"", "&quot;")
+			pre := parse.TrimWhitespace(parse.ReplaceMultipleWhitespaceAndEntities([]byte(d), minxml.EntitiesMap, minxml.AttrRevEntitiesMap))
+			m, ok1 := cssMin(pre, true)
+			out, ok := runCSS("<svg><g style=\"" + d + "\"/></svg>")
+			if !ok1 || !ok || !strings.HasPrefix(out, "<svg><g style=") || !strings.HasSuffix(out, "/></svg>") {
+				st.Tag("skipped")
+				continue
+			}
+			got := out[len("<svg><g style=") : len(out)-len("/></svg>")]
+			st.Tag("writer=style-attr")
+			cases = append(cases, h.Case{Line: "model.c09.xml.svgstyleattr " + h.HexS(d) + " " + h.HexS(m), Key: fmt.Sprintf("style attr %q css=%q", d, m), InHex: h.HexS(d), Want: []byte(got), Nontrivial: got != "\""+d+"\""})
+		}
+	}
 	for k := 0; k < n; k++ {
 		r := c.Rng.Fork()
 		pre := r.Pick([]string{"", "", "]", "]]", "]]]"})
@@ -1087,6 +1081,9 @@ var c09XmlFixedXML = []string{
 	"<a>]]<!-- note -->&gt;<b><![CDATA[x]]]]><!--c--><![CDATA[>y]]></b><c>]]&#62;</c></a>", "<a b='x\"y' c=\"x'y\" d='&quot;&apos;' e=\"&#34;&#39;&lt;&amp;&#9;&#10;&#13;>\"/>",
 	"<a b = \"c\"  d  =  'e' />", "<a><![CDATA[ x ]]></a>", "<a>a&#32; b</a>", "<!DOCTYPE a [<!ENTITY e \"x>y\"><!-- ] > -->]><a>&e;</a>", "<a><![CDATA[<<<<<]]]]><![CDATA[>]]></a>", "<a><![CDATA[<<<<]]]]><![CDATA[>]]></a>",
 	"<a>]]<![CDATA[>]]></a>", "<a>]<![CDATA[]]]><![CDATA[>]]></a>", "<a>]]<?p ?>&gt;</a>", "<a>&#x26;#60;</a>", "<a b=\"&#38;lt;\"/>", "<a b=\"&amp;#60;\"/>", "<a> &#x20; </a>", "<a><b></b><c> </c><d\n></d ></a>",
+	// K-C09-Xml-1 and K-C09-Xml-5 (fixed in 59fe76b): every variant
+	"<a><?x k=\"?&gt;\"?></a>", "<?x a=\"?&gt;\"?><a/>", "<?x a=\"?&#62;\" b=\"c\"?><a/>", "<a><?x k=\"?&#x3e;\" l='?&gt;'?></a>",
+	"<r><?p >?></r>", "<r><?p ? >?></r>", "<r><?p />?></r>", "<r><?p a >b?></r>", "<r><?p a=\"b\">?></r>", "<r>x <?p > y ?> z</r>",
 	"<a><?x a='?&gt;'?></a>", "<a><?x ?&gt;?></a>", "<a><?x a=\"b\"c=\"d\" \"e\"?></a>", "<a b=\"]]>\"/>", "<a>x&#60;![CDATA[y</a>",
 }
 
@@ -1095,6 +1092,11 @@ var c09XmlFixedSVG = []string{
 	"<svg><use xlink:href=\"#a\"/></svg>", "<svg:svg xmlns:svg=\"http://www.w3.org/2000/svg\"><svg:g></svg:g></svg:svg>", "<svg><g id=\"1.50\"/></svg>", "<svg data-x=\"1.50px\"/>",
 	"<svg b=\"x&#60;y &#38; z&#10;\"/>", "<svg><style>a{b:c}</style><text> a &lt; b </text></svg>", "<svg><style><![CDATA[a[b]]]]><![CDATA[>c{d:\"<<<<<\"}]]></style></svg>", "<svg><style>a{content:\"&amp;\"}</style></svg>",
 	"<svg style=\"content:'&amp;'\"/>", "<svg style=\"a:'&quot;&lt;'\"/>", "<?xml version=\"1.0\"?><!DOCTYPE svg [<!ENTITY e \"v\">] ><?xml-stylesheet href=\"a.css\"?><svg><text>&e;</text></svg>",
+	// K-C09-Xml-2 and K-C09-Xml-3 (fixed in d582c28), K-C09-Xml-5 in SVG (59fe76b): every variant
+	"<svg><style>a[b]] > c{d:e}</style></svg>", "<svg><style>a[b=\\] ] > c{d:e}</style></svg>", "<svg><style><![CDATA[a[b]] > c{d:\"<<<<<\"}]]></style></svg>",
+	"<svg><style><![CDATA[a[b=\\] ] > c{d:\"<<<<<\"}]]></style></svg>", "<svg><style>a{b:c&amp;}</style></svg>", "<svg style=\"a:&lt;\"/>", "<svg style=\"a:&amp;\"/>",
+	"<svg><style><![CDATA[a{--x:&}]]></style></svg>", "<svg><style>a{--x:&amp;}</style></svg>", "<svg><rect style='x:&apos;y\"z&apos;;a:&lt;'/></svg>",
+	"<svg><?p >?><g></g></svg>", "<svg><?p ? >?>x<g></g></svg>", "<svg><?p />?><g/></svg>",
 	"<svg><defs/><defs></defs><g> </g><rect/></svg>", "<svg><path d=\"M 10,10 L 20 20 A 5 5 0 0 1 30 30 z M.5.5 1-2\"/></svg>",
 }
 
